@@ -508,3 +508,19 @@ def vocab_from_dump(dump):
         if k not in seen:
             seen.add(k); a2.append(k)
     return {'all': a2, 'argnames': sorted(set(argnames))}
+
+
+# ---------- plan summaries with awkward index-key names ----------
+PLAN_NAMES = ['a', 'IX', 'N', 'SCAN', 'c++', 'tags[', '(draft', 'rate**', 'x\\y', 'a.b', '$x', 'é', '', ' ', 'a b', 'ab', 'b', 'abc', 'f0', 'REDACTED', '_id', 'x{y', 'q?', '^a$', 'a|b', '[z]', 'name', 'age', 'uf_a']
+
+def plan_line(rng, ns='mydb.users'):
+    k = rng.randint(1, 3)
+    clauses = []
+    for _ in range(rng.randint(1, 2)):
+        names = [rng.choice(PLAN_NAMES) for _ in range(k)]
+        clauses.append('IXSCAN { ' + ', '.join('%s: %s' % (n, rng.choice(['1', '-1'])) for n in names) + ' }')
+    ps = rng.choice([', '.join(clauses), 'COLLSCAN', 'IDHACK', 'IXSCAN {}', 'IXSCAN{' + rng.choice(PLAN_NAMES) + ':1}', 'SORT_MERGE IXSCAN { a: 1 } IXSCAN { b.c: 1 }'])
+    flt = {rng.choice(PLAN_NAMES) or 'z': 'v%d' % rng.randint(0, 9) for _ in range(2)}
+    entry = {'t': {'$date': '2020-01-01T00:00:00.000+00:00'}, 's': 'I', 'c': 'COMMAND', 'id': RawNum('51803'), 'ctx': 'conn1', 'msg': 'Slow query',
+             'attr': {'type': 'command', 'ns': ns, 'command': {'find': ns.split('.', 1)[-1], 'filter': flt, '$db': ns.split('.')[0]}, 'planSummary': ps, 'durationMillis': RawNum('5')}}
+    return dumps(entry).encode('utf-8')
